@@ -6,7 +6,7 @@ From Coq Require Import List Arith NArith Bool Lia.
 From TX Require Import Base.Val Model.ConnCode Proofs.ConnCode Gen.C06.
 Import ListNotations.
 
-Definition impl_cfg : cfg := {| use_claim := impl_use_claim; create_cleanup := impl_create_cleanup |}.
+Definition impl_cfg : cfg := {| use_claim := impl_use_claim; create_cleanup := impl_create_cleanup; use_admit := impl_use_admit |}.
 
 Fixpoint solo (C : cfg) (P : params) (fuel : nat) (t : lo) (s : sh) : list nat :=
   match fuel with
@@ -26,7 +26,7 @@ Lemma side_solo_activate_trace : solo_act None = solo_activate_trace.
 Proof. vm_compute. reflexivity. Qed.
 Lemma side_solo_revoke_trace : solo_rev = solo_revoke_trace.
 Proof. vm_compute. reflexivity. Qed.
-Lemma side_solo_fault_traces : map (fun k => solo_act (Some k)) (seq 0 9) = solo_activate_fault_traces.
+Lemma side_solo_fault_traces : map (fun k => solo_act (Some k)) (seq 0 11) = solo_activate_fault_traces.
 Proof. vm_compute. reflexivity. Qed.
 
 (* the three key families of a code (record by code, record by id, claim) are pairwise not prefixes of one
@@ -42,7 +42,8 @@ Lemma side_key_families_disjoint :
   forallb (fun p => unrelated (fst p) (snd p))
           [(key_code, key_id); (key_code, key_claim); (key_id, key_claim); (key_code, key_main); (key_id, key_main);
            (key_claim, key_main); (key_claim, key_glob); (key_claim, key_cidx); (key_main, key_cidx); (key_glob, key_cidx);
-           (key_main, key_glob)] = true.
+           (key_main, key_glob); (key_admit, key_code); (key_admit, key_id); (key_admit, key_claim); (key_admit, key_main);
+           (key_admit, key_glob); (key_admit, key_cidx)] = true.
 Proof. vm_compute. reflexivity. Qed.
 
 (* the quota defaults are positive (a zero quota would reject every activation) *)
@@ -51,4 +52,4 @@ Proof. unfold DefaultMaxActiveCodesPerClient, DefaultMaxActiveMappingsPerClient.
 
 (* which variant the tree is: the theorems of Properties/C06.v are about Current; on a tree where a flag is false the
    corresponding `known:` finding is expected and the check reports it *)
-Definition tree_is_repaired : bool := impl_use_claim && impl_create_cleanup.
+Definition tree_is_repaired : bool := impl_use_claim && impl_create_cleanup && impl_use_admit.
